@@ -64,6 +64,8 @@ class Sites:
                 if f.get("idle"):
                     # the twin of a failing call: the same call does nothing (and says so by returning None)
                     self.fired[name + ":idle"] = self.fired.get(name + ":idle", 0) + 1
+                    if callable(f.get("idle_call")):
+                        return f["idle_call"](*a, **k)   # "does nothing" may still have to hand its input back
                     return f.get("idle_value")
                 self.fired[name + ":" + f["exc"]] = self.fired.get(name + ":" + f["exc"], 0) + 1
                 raise EXC_TYPES[f["exc"]]()
